@@ -558,8 +558,16 @@ func doBinaryOp(a constant.Value, tok token.Token, b constant.Value, ctx []*inte
 		if b.Kind() == constant.Unknown {
 			panic(fmt.Errorf("invalid shift count: cannot convert type %v to type uint", ctx[1].Type))
 		}
+		// same bound as go/types: larger counts cannot yield a representable value, and a
+		// negative count converted to uint would make constant.Shift allocate without limit
+		const shiftBound = 1023 - 1 + 52
 		if s, exact := constant.Int64Val(b); exact {
-			return constant.Shift(a, tok, uint(s))
+			if s < 0 {
+				panic(fmt.Errorf("invalid shift count %v (negative)", b))
+			}
+			if s <= shiftBound {
+				return constant.Shift(a, tok, uint(s))
+			}
 		}
 		panic(errors.New("shift count too large (overflow)"))
 	}
